@@ -19,10 +19,17 @@ Three kinds of cases, all on the REAL code under the virtual-time loop with Fake
   upload limiter releases one ``send_file`` iteration at a time; write errors, closes and resets at any point
   (a reset in the EOF wait is a failure that is reported with PeerUploadFailed).
 * ``pair`` — two unmodified ``SoulSeekClient``s and a simulated server on one FakeNet: a real download of a
-  shared file with the file connection reset after k bytes (repeatedly; either end learns of it first), then no
-  more faults; the control-plane state of the pair is sampled and checked against the invariant of the Lean
-  control-plane model (``FileXfer.Ctl``). Variant: one downloader and 2-3 uploaders at once (every fresh uploader
-  hands out the same first ticket).
+  shared file with the file connection reset after k bytes (repeatedly; either end learns of it first; optionally the
+  peer connections that exist then are broken too: the next control write of the uploader / the downloader / both
+  fails and the writer is told), then no more faults; the control-plane state of the pair is sampled and checked
+  against the invariant of the Lean control-plane model (``FileXfer.Ctl``). Variant: one downloader and 2-3 uploaders
+  at once (every fresh uploader hands out the same first ticket).
+* ``hs``  — one raw hand-shake value (4-byte ticket / 8-byte offset, every byte boundary up to 2^32-1 / 2^64-1)
+  through the real ``receive_transfer_ticket`` / ``receive_transfer_offset``, any segmentation, file bytes following.
+* ``big`` — monitor only: real uploader and real downloader on one pipe, a shared file beyond 4 GiB (sparse) whose
+  download was interrupted beyond (or just before) a multiple of 4 GiB and is resumed.
+In the ``ul`` cases the send of PeerUploadFailed is suspended where the real one suspends: time passes / the downloader
+asks again meanwhile; it gets out, no connection can be made, or the connection dies under the write.
 """
 from __future__ import annotations
 
@@ -38,7 +45,7 @@ import types
 from vlib import common, fakenet, simloop
 from vlib.common import KResult, Violation, Disagreement, Property
 from vlib.simloop import settle, advance
-from translate import rate_constants
+from translate import rate_constants, xfer_wire
 
 GMUL, GADD = 5, 77          # pattern of the bytes a dishonest sender makes up
 STALL = 200.0               # > TRANSFER_TIMEOUT (180 s)
@@ -91,6 +98,8 @@ class _NetStub:
         self.peer_msgs = []
         self.server_msgs = []
         self.next_connection = None
+        self.gate_puf = False       # ul cases: the send of PeerUploadFailed is suspended until the schedule decides
+        self.puf_pending = None     # … the future it waits on: 'told' | 'noconn' | 'werr'
 
     async def on_state_changed(self, state, conn, close_reason=None):
         pass
@@ -99,6 +108,17 @@ class _NetStub:
         pass
 
     async def send_peer_messages(self, username, *messages, **kw):
+        if self.gate_puf and any(type(m).__qualname__.startswith('PeerUploadFailed') for m in messages):
+            from aioslsk.exceptions import ConnectionWriteError, PeerConnectionError
+            self.puf_pending = asyncio.get_running_loop().create_future()
+            try:
+                how = await self.puf_pending
+            finally:
+                self.puf_pending = None
+            if how == 'noconn':       # `get_peer_connection`: no connection to the peer can be made
+                raise PeerConnectionError(f'failed to connect to peer {username}')
+            if how == 'werr':         # `PeerConnection.send_message`: the connection died under the write
+                raise ConnectionWriteError('10.0.0.9:40001 : exception during writing')
         self.peer_msgs += list(messages)
 
     def queue_server_messages(self, *messages):
@@ -680,7 +700,8 @@ def _ul_snapshot(tr, off, lw, gate, net=None) -> str:
         st = 'UPLOADING-EOFWAIT'
     sent = bytes(lw.sent[4:]) if lw is not None else b''
     puf = sum(1 for m in (net.peer_msgs if net is not None else []) if type(m).__qualname__.startswith('PeerUploadFailed'))
-    return f'{st} off={off} bt={tr.bytes_transfered} sent={len(sent)} hs={fnv(sent)} puf={puf}'
+    ntf = 1 if (net is not None and net.puf_pending is not None) else 0
+    return f'{st} off={off} bt={tr.bytes_transfered} sent={len(sent)} hs={fnv(sent)} puf={puf} ntf={ntf}'
 
 
 async def _ul_main(loop, case: dict, tmp: str):
@@ -693,6 +714,7 @@ async def _ul_main(loop, case: dict, tmp: str):
     with open(src, 'wb') as f:
         f.write(F)
     _settings, _bus, net, _sm, tm = _managers(os.path.join(tmp, 'dl'))
+    net.gate_puf = True
     tr = await tm.add(Transfer('peer', 'music\\shared.bin', TransferDirection.UPLOAD))
     tr.local_path = src
     tr.filesize = N
@@ -747,6 +769,31 @@ async def _ul_main(loop, case: dict, tmp: str):
             if _state_name(tr) == 'COMPLETE' and not (peer['closed'] or peer['reset']):
                 flags['early'] = True
 
+        async def notify():
+            """the upload task is inside `send_peer_messages(PeerUploadFailed)`: the schedule decides what happens
+            meanwhile (time passes, the downloader asks again) and how the send ends"""
+            if net.puf_pending is None:
+                return
+            flags['notified'] = True
+            for op in list(att.get('ntf') or ['told']) + ['told']:
+                if net.puf_pending is None:
+                    break
+                if op == 'wait':
+                    await advance(15.0)
+                elif op == 'requeue':
+                    # `_on_peer_transfer_queue` for a transfer in the list: FAILED / COMPLETE go back to the queue, a
+                    # transfer that is being processed ignores the request
+                    if _state_name(tr) in ('FAILED', 'COMPLETE'):
+                        await tr.state.queue()
+                    await settle()
+                    lines.append('requeue')
+                    note()
+                else:
+                    net.puf_pending.set_result(op)
+                    await settle()
+                    lines.append('told' if op == 'told' else 'untold')
+                    note()
+
         async def release(force_werr: bool):
             """one `send_file` iteration; emits the model op(s) that describe what the environment did"""
             sending = _state_name(tr) == 'UPLOADING' and gate.waiting
@@ -787,12 +834,18 @@ async def _ul_main(loop, case: dict, tmp: str):
                 await release(op == 'werr')
             else:
                 await peer_ends(op)
+            await notify()
         if not (peer['closed'] or peer['reset']):
             await peer_ends('close')
+            await notify()
         if not _task_idle(tr):
             # still parked in the send loop although the peer is gone: the next write fails (the RST comes back)
             await release(True)
+            await notify()
         await advance(0.5)
+        if task.done() and not task.cancelled() and task.exception() is not None:
+            # nothing may escape `_initialize_upload` / `_upload_file` (the model has no such outcome)
+            obs.append(f'TASK-EXC {type(task.exception()).__name__}')
         completed_before_close = flags['early']
         # ---- monitor
         st = _state_name(tr)
@@ -824,6 +877,244 @@ async def _ul_main(loop, case: dict, tmp: str):
 
 
 # ------------------------------------------------------------------------------------------------
+# hs cases: the two raw values of the hand-shake through the real readers
+# ------------------------------------------------------------------------------------------------
+
+async def _hs_main(loop, case: dict, tmp: str):
+    """an honest peer writes the ticket (4 bytes) / the offset (8 bytes), little endian, `trail` more bytes follow at
+    once (the first file bytes); the first `k` bytes of all that arrive, in the given segments; the REAL
+    `PeerConnection.receive_transfer_ticket` / `receive_transfer_offset` reads"""
+    what, v = case['what'], case['value']
+    width = 4 if what == 'ticket' else 8
+    trail = (1, case.get('tadd', 0), 0, case.get('trail', 0))
+    data = struct.pack('<I' if what == 'ticket' else '<Q', v) + bytes_of([trail])
+    k = min(case['k'], len(data))
+    net, fnet = _NetStub(), fakenet.FakeNet()
+    conn, _lw, _rr, rw = _file_conn(net, fnet, incoming=True)
+    task = loop.create_task(conn.receive_transfer_ticket() if what == 'ticket' else conn.receive_transfer_offset())
+    await settle()
+    pos = 0
+    for c in case['cuts']:
+        c = min(c, k - pos)
+        if c <= 0:
+            break
+        rw.write(data[pos:pos + c])
+        pos += c
+        await settle()
+        if case.get('gap'):
+            await advance(case['gap'])
+    if pos < k:
+        rw.write(data[pos:k])
+    await settle()
+    lines = [f'hs {what} {v} {k} {enc_pieces([trail])}']
+    vs = []
+
+    def V(sig, text, **kw):
+        vs.append(Violation(sig, text, case, **kw))
+    if not task.done():
+        obs = ['waiting']
+        task.cancel()
+        await settle()
+        if k >= width:
+            V('C04-handshake-not-completed', f'all {width} bytes of the {what} ({v}) were delivered in segments '
+              f'{case["cuts"]} without any fault, the reader still waits', observed='waiting', required=v)
+    elif task.exception() is not None:
+        obs = [f'exc {type(task.exception()).__name__}']
+        V('C04-handshake-not-completed', f'reading the {what} ({v}) raised {task.exception()!r}', observed=obs[0],
+          required=v)
+    else:
+        val, left = task.result(), len(conn._reader._buffer)
+        obs = [f'val={val} left={left}']
+        if val != v or k < width:
+            V('C04-handshake-value-differs', f'the peer wrote the {what} {v} as {width} little-endian bytes '
+              f'({k} bytes delivered), the reader returned {val}', observed=val, required=v)
+        elif left != k - width:
+            V('C04-handshake-value-differs', f'reading the {what} took {k - left} bytes from the stream instead of '
+              f'{width}: the file bytes that follow are out of step', observed=k - left, required=width)
+    for e in loop.exceptions:
+        obs.append(f"LOOP-EXC {e.get('type')}")
+    return obs, lines, vs
+
+
+# ------------------------------------------------------------------------------------------------
+# big cases: a real uploader and a real downloader on one pipe, files beyond 4 GiB (sparse)
+# ------------------------------------------------------------------------------------------------
+
+BIG_HEAD = 70000        # bytes at the start of the shared file that hold the pattern (the rest up to the tail is a hole)
+BIG_BACK = 4096         # bytes before the initial local size that hold it too (the region compared afterwards)
+
+
+def _big_write(path: str, size: int, regions, mul: int, add: int):
+    with open(path, 'wb') as f:
+        f.truncate(size)
+        for a, b in regions:
+            a, b = max(0, a), min(size, b)
+            if a < b:
+                f.seek(a)
+                f.write(pat(mul, add, a, b - a))
+
+
+def _big_read(path, a: int, b: int) -> bytes:
+    try:
+        with open(path, 'rb') as f:
+            f.seek(a)
+            return f.read(max(0, b - a))
+    except (OSError, TypeError):
+        return b''
+
+
+async def _big_main(loop, case: dict, tmp: str):
+    """Monitor only. The shared file has `size` bytes (> 4 GiB, sparse), the downloader already holds the first `have`
+    of them; real `_initialize_upload` / `_upload_file` and real `_on_peer_transfer_request` / `_on_peer_initialized` /
+    `_initialize_download` / `_download_file` talk to each other over one FakeNet pipe (ticket, offset, file bytes);
+    the i-th file connection is reset after `cuts[i]` file bytes, the last attempt is fault-free."""
+    from aioslsk.events import PeerInitializedEvent
+    from aioslsk.network.connection import PeerConnection, PeerConnectionType, ConnectionState, PeerConnectionState
+    from aioslsk.transfer.model import Transfer, TransferDirection
+    from aioslsk.protocol.messages import PeerTransferRequest
+    from aioslsk.network.rate_limiter import LimitedRateLimiter
+    N, H0, mul, add = case['size'], case['have'], case['mul'], case['add']
+    T0 = max(0, H0 - BIG_BACK)
+    dl_dir = os.path.join(tmp, 'dl')
+    os.makedirs(dl_dir)
+    remote = os.path.join(tmp, 'shared.bin')
+    _big_write(remote, N, [(0, BIG_HEAD), (T0, N)], mul, add)
+    local = os.path.join(dl_dir, 'f.bin')
+    _big_write(local, H0, [(0, min(H0, BIG_HEAD)), (T0, H0)], mul, add)
+    _s1, _b1, net_d, _sm1, tm_d = _managers(dl_dir)
+    _s2, _b2, net_u, _sm2, tm_u = _managers(os.path.join(tmp, 'dl-u'))
+    name = 'music\\f.bin'
+    tr_d = await tm_d.add(Transfer('peer', name, TransferDirection.DOWNLOAD))
+    await tr_d.state.queue()
+    tr_d.local_path = local
+    tr_u = await tm_u.add(Transfer('peer', name, TransferDirection.UPLOAD))
+    tr_u.local_path = remote
+    tr_u.filesize = N
+    await tr_u.state.queue()
+    fnet = fakenet.FakeNet()
+    vs, parts = [], []
+
+    def V(sig, what, **kw):
+        vs.append(Violation(sig, what, case, **kw))
+
+    def expected(a: int, b: int) -> bytes:
+        return pat(mul, add, a, max(0, min(b, N) - a))
+
+    cuts = list(case.get('cuts', [])) + [None]
+    for ai, cut in enumerate(cuts):
+        try:
+            size_before = os.path.getsize(tr_d.local_path) if tr_d.local_path else 0
+        except OSError:
+            size_before = 0
+        if _state_name(tr_u) in ('FAILED', 'COMPLETE'):
+            await tr_u.state.queue()          # the downloader's re-request (`_on_peer_transfer_queue`)
+        if _state_name(tr_u) != 'QUEUED' or not _task_idle(tr_u):
+            V('C04-stuck-processing', f'attempt {ai}: the upload is {_state_name(tr_u)} '
+              f'{"with no task" if _task_idle(tr_u) else "and its task never ends"} — the next attempt cannot start',
+              observed=_state_name(tr_u))
+            break
+        a_r, a_w, b_r, b_w = fnet.make_pair(('10.0.0.9', 40000))
+        conns = []
+        for (r, w, nt, inc) in ((a_r, a_w, net_u, False), (b_r, b_w, net_d, True)):
+            c = PeerConnection('10.0.0.9', 40000, nt, connection_type=PeerConnectionType.FILE, incoming=inc)
+            c._reader, c._writer = r, w
+            c.state = ConnectionState.CONNECTED
+            c.username = 'peer'
+            c.set_connection_state(PeerConnectionState.NEGOTIATING_TRANSFER)
+            if case.get('lim'):
+                c.download_rate_limiter = LimitedRateLimiter(case['lim'])
+                c.upload_rate_limiter = LimitedRateLimiter(case['lim'])
+            conns.append(c)
+        conn_u, conn_d = conns
+        if cut is not None:
+            a_w.fail_after = 4 + cut             # the ticket, then `cut` file bytes get through
+
+        def guarded_write(data, w=a_w, other=b_w, plain=a_w.write):
+            # a write to a connection the other end has closed fails (the RST comes back); an uploader that writes far
+            # more than the file has left is stopped (it would fill the memory with a 4 GiB hole)
+            if other._closed or len(w.sent) > (N - min(size_before, N)) + 2 ** 21:
+                w.reset()
+                raise ConnectionResetError('the downloader has closed the connection')
+            return plain(data)
+        a_w.write = guarded_write
+        net_u.next_connection = conn_u
+        n0 = len(net_u.peer_msgs)
+        utask = loop.create_task(tm_u._initialize_upload(tr_u))
+        tr_u._transfer_task = utask
+        utask.add_done_callback(tr_u._transfer_task_complete)
+        await settle()
+        reqs = [m for m in net_u.peer_msgs[n0:] if type(m).__qualname__.startswith('PeerTransferRequest')]
+        if not reqs:
+            V('C04-stuck-processing', f'attempt {ai}: the uploader did not offer the file', observed=_state_name(tr_u))
+            break
+        req = PeerTransferRequest.Request(direction=1, ticket=reqs[-1].ticket, filename=name, filesize=reqs[-1].filesize)
+        await tm_d._on_peer_transfer_request(req, _PeerStub())
+        await settle()
+        await tm_d._on_peer_initialized(PeerInitializedEvent(conn_d, requested=False))
+        for _ in range(600):
+            await advance(1.0)
+            if _task_idle(tr_d) and _task_idle(tr_u):
+                break
+        if not b_w._closed:
+            b_w.close()
+        await settle()
+        await advance(1.0)
+        for t in (utask, tr_d._transfer_task):
+            if t is not None and t.done() and not t.cancelled() and t.exception() is not None:
+                parts.append(f'TASK-EXC {type(t.exception()).__name__}: {t.exception()}')
+        # ---- monitor
+        dst, ust = _state_name(tr_d), _state_name(tr_u)
+        wire = bytes(b_w.sent[:8])
+        off = struct.unpack('<Q', wire)[0] if len(wire) == 8 else None
+        try:
+            L = os.path.getsize(tr_d.local_path) if tr_d.local_path else 0
+        except OSError:
+            L = 0
+        sent = bytes(a_w.sent[4:])
+        parts.append(f'#{ai} cut={cut} off={off} down={dst} up={ust} len={L} sent={len(sent)}')
+        if off is None:
+            V('C04-handshake-not-completed', f'attempt {ai}: local file of {size_before} bytes, no fault before the '
+              f'hand-shake: no offset on the wire (download {dst}, upload {ust})', observed=dst,
+              required='offset on the wire')
+            break
+        if off != size_before:
+            V('C04-wrong-offset', f'attempt {ai}: offset {off} sent, local file holds {size_before} bytes',
+              observed=off, required=size_before)
+        due = expected(off, N) if off >= T0 else None
+        if due is not None and sent != due[:len(sent)]:
+            V('C04-upload-sent-other-bytes', f'attempt {ai}: the downloader asked for the file from byte {off} '
+              f'(of {N}); the {len(sent)} bytes the uploader wrote are not the bytes of the shared file from there on',
+              observed=fnv(sent), required=fnv(due[:len(sent)]))
+        if ust == 'COMPLETE' and due is not None and sent != due:
+            V('C04-upload-complete-short', f'attempt {ai}: upload COMPLETE but {len(sent)} bytes were written, '
+              f'{len(due)} were due from offset {off}', observed=len(sent), required=len(due))
+        loc_tail = _big_read(tr_d.local_path, T0, L)
+        if L < size_before:
+            V('C04-prefix-lost', f'attempt {ai}: local file shrank from {size_before} to {L} bytes', observed=L,
+              required=f'>= {size_before}')
+        elif loc_tail != expected(T0, L) or L > N:
+            first = next((T0 + i for i, (x, y) in enumerate(zip(loc_tail, expected(T0, L))) if x != y), min(L, N))
+            V('C04-prefix-corrupted', f'attempt {ai}: honest uploader, resumed at {off}: the local file ({L} bytes) is '
+              f'not a prefix of the shared file ({N} bytes) — first byte that differs: {first}',
+              observed=fnv(loc_tail), required=fnv(expected(T0, L)))
+        if dst == 'COMPLETE' and (L != N or loc_tail != expected(T0, N)):
+            V('C04-complete-but-differs', f'attempt {ai}: COMPLETE but the local file ({L} bytes) differs from the '
+              f'shared file ({N} bytes) from byte {off} on', observed={'len': L, 'fnv': fnv(loc_tail)},
+              required={'len': N, 'fnv': fnv(expected(T0, N))})
+        for tr in (tr_d, tr_u):
+            if tr.is_processing() and _task_idle(tr):
+                V('C04-stuck-processing', f'attempt {ai}: {"upload" if tr is tr_u else "download"} left in '
+                  f'{_state_name(tr)} with no task', observed=_state_name(tr))
+        if cut is None and not vs and not (dst == 'COMPLETE' and ust == 'COMPLETE'):
+            V('C04-no-complete-after-full-delivery', f'attempt {ai}: no fault, {N - off} bytes missing of {N}: '
+              f'download ended {dst}, upload {ust}, local file {L} bytes', observed={'down': dst, 'up': ust},
+              required={'down': 'COMPLETE', 'up': 'COMPLETE'})
+        if vs or dst == 'COMPLETE':
+            break
+    return ['; '.join(parts)], [], vs
+
+
+# ------------------------------------------------------------------------------------------------
 # running a case
 # ------------------------------------------------------------------------------------------------
 
@@ -836,6 +1127,10 @@ def _eval_case(case):
             main = _dl_main
         elif case['kind'] == 'ul':
             main = _ul_main
+        elif case['kind'] == 'hs':
+            main = _hs_main
+        elif case['kind'] == 'big':
+            main = _big_main
         else:
             from props import c04_pair
             return c04_pair.eval_pair(case, tmp)
@@ -854,6 +1149,9 @@ def _eval_case(case):
 # ------------------------------------------------------------------------------------------------
 
 SIZES = [0, 1, 127, 128, 129, 255, 256, 300, 8191, 8192, 8193, 3 * 8192, 3 * 8192 + 5]
+# offsets beyond 4 GiB a local file can have on any file system in use (a seek the OS refuses — ext4: beyond 16 TiB —
+# is an OSError, "File read error": OS semantics, not modelled; no file has 2^63 bytes or more)
+BIG_OFFSETS = [2 ** 32 - 1, 2 ** 32, 2 ** 32 + 1, 2 ** 32 + 128, 2 ** 33, 2 ** 33 + 2 ** 32 + 7, 2 ** 40 + 3]
 SMALL = [0, 1, 2, 127, 128, 129, 255, 256, 257, 300]
 
 
@@ -1133,6 +1431,11 @@ def _gen_ul(rng: random.Random) -> dict:
         if N > 9000 and lim:
             lim = 0 if rng.random() < 0.7 else 4096
         off = rng.choice([0, 0, 1, N, N, max(0, N - 1), N + 1, N + 5000, N // 2, rng.randint(0, N), 127, 128, 129])
+        if rng.random() < 0.12:
+            # offsets that need more than 4 of the 8 bytes on the wire (the file is small: an honest uploader sends
+            # nothing and does not complete — unless it reads the offset as another number)
+            off = rng.choice(BIG_OFFSETS + [2 ** 32 + N // 2, 2 ** 32 + N, 2 ** 32 + max(0, N - 1),
+                                            rng.choice([1, 2, 3, 255]) * 2 ** 32 + rng.randint(0, N)])
         chunk = 128 if lim else 8192
         need = (max(0, N - off) + chunk - 1) // chunk + 1
         kind = rng.choice(['clean', 'clean', 'clean', 'werr', 'early-close', 'early-reset', 'reset-in-wait', 'extra-chunks'])
@@ -1148,9 +1451,56 @@ def _gen_ul(rng: random.Random) -> dict:
         else:
             k = rng.randint(0, max(0, need - 1))
             ops = ['chunk'] * k + ['close' if kind == 'early-close' else 'reset'] + ['chunk'] * rng.choice([1, 2])
-        atts.append({'off': off, 'lim': lim, 'ops': ops, 'hs': _hs_split(rng, 8)})
+        att = {'off': off, 'lim': lim, 'ops': ops, 'hs': _hs_split(rng, 8)}
+        if any(o in ('werr', 'reset') for o in ops) and rng.random() < 0.6:
+            # how the send of PeerUploadFailed goes: time passes / the downloader asks again meanwhile; it gets out,
+            # no connection to the peer can be made, or the connection dies under the write
+            att['ntf'] = rng.choice([['noconn'], ['werr'], ['werr'], ['wait', 'told'], ['requeue', 'told'],
+                                     ['requeue', 'werr'], ['wait', 'requeue', 'noconn'], ['wait', 'werr']])
+        atts.append(att)
     return {'kind': 'ul', 'flen': N, 'mul': rng.choice([1, 3, 7, 11]), 'add': rng.randint(0, 255), 'attempts': atts,
             'gen': 'ul'}
+
+
+TICKETS = [0, 1, 255, 256, 65535, 65536, 2 ** 24 + 1, 2 ** 31 - 1, 2 ** 31, 2 ** 32 - 2, 2 ** 32 - 1]
+OFFSETS = [0, 1, 255, 256, 65535, 65536, 2 ** 24, 2 ** 31, 2 ** 32 - 1, 2 ** 32, 2 ** 32 + 1, 2 ** 32 + 1148576,
+           2 ** 33 + 5, 2 ** 40, 2 ** 48 + 2 ** 32 + 9, 2 ** 56 - 1, 2 ** 63 - 1, 2 ** 63, 2 ** 64 - 1]
+
+
+def _gen_hs(rng: random.Random, i: int) -> dict:
+    """one raw hand-shake value through the real reader: every boundary of every byte, any segmentation, file bytes
+    following at once, fewer bytes than the value has (the reader must keep waiting)"""
+    what = 'ticket' if i % 3 == 0 else 'offset'
+    width = 4 if what == 'ticket' else 8
+    vals = TICKETS if what == 'ticket' else OFFSETS
+    v = vals[(i // 3) % len(vals)] if i < 3 * len(OFFSETS) else \
+        rng.choice([rng.randrange(0, 256 ** width), rng.randrange(0, 256 ** rng.randint(1, width))])
+    trail = rng.choice([0, 0, 1, 5, 128, 8192])
+    k = rng.choice([width, width, width + trail, width + trail, rng.randint(0, width - 1), width - 1,
+                    rng.randint(width, width + trail)])
+    hs = _hs_split(rng, max(1, k))
+    return {'kind': 'hs', 'what': what, 'value': v, 'trail': trail, 'tadd': rng.randint(0, 255), 'k': k,
+            'cuts': hs['cuts'] if hs else [k], 'gap': hs['gap'] if hs else 0, 'gen': 'hs'}
+
+
+def _gen_big(rng: random.Random, i: int) -> dict:
+    """a download that was interrupted beyond (or just before) a multiple of 4 GiB and is resumed; sparse files"""
+    base = rng.choice([1, 1, 1, 2, 3]) * 2 ** 32
+    missing = rng.choice([1, 128, 8192, 8193, 20000, 25 * 8192])
+    have = base + rng.choice([0, 1, 5, 300, 1148576, 2 ** 31, -1, -300, -8192])
+    cuts = []
+    if have < base:
+        missing += base - have
+        if rng.random() < 0.8:                 # the first attempt is cut: the next resume starts beyond 4 GiB
+            cuts.append(base - have + rng.choice([0, 1, 100]))
+    elif rng.random() < 0.4:
+        cuts.append(rng.choice([0, 1, missing - 1, rng.randint(0, missing)]))
+    cuts = [min(c, missing - 1) for c in cuts if missing > 1]
+    if i == 0:
+        base, have, missing, cuts = 2 ** 32, 2 ** 32 + 1148576, 25 * 8192, []
+    lim = rng.choice([0, 0, 0, 4096])
+    return {'kind': 'big', 'size': have + missing, 'have': have, 'cuts': cuts, 'mul': rng.choice([1, 3, 7, 11]),
+            'add': rng.randint(0, 255), 'lim': lim, 'monitor_only': True, 'gen': 'big'}
 
 
 # Witnesses of the defects of the unchanged tree (repaired by fixes/C04-*.patch); replayed first in every run.
@@ -1172,6 +1522,10 @@ WITNESSES = [
     ('C04-pair-not-finished',                    # the downloader learns of the break before the uploader
      {'kind': 'pair', 'flen': 20000, 'cuts': [5000], 'rst_first': 'down', 'rst_delay': 1.0, 'mul': 1, 'add': 0,
       'lim_up': 0, 'lim_down': 0, 'lat_p': 0.02, 'lat_f': 0.02, 'hs_split': None, 'gen': 'witness'}),
+    ('C04-pair-not-finished',                    # PeerUploadFailed cannot be delivered, the downloader had asked already (fixed a074a9b)
+     {'kind': 'pair', 'flen': 20000, 'cuts': [5000], 'rst_first': 'down', 'rst_delay': 1.0, 'mul': 1, 'add': 0,
+      'lim_up': 0, 'lim_down': 0, 'lat_p': 0.02, 'lat_f': 0.02, 'hs_split': None,
+      'pfaults': [{'who': 'up', 'n': 1, 'delay': 0}], 'gen': 'witness'}),
     ('C04-complete-but-differs',                 # two uploaders, same ticket (fixed d97c791)
      {'kind': 'pair', 'flen': 20000, 'mul': 1, 'add': 0, 'second': [{'flen': 20000, 'mul': 3, 'add': 9}], 'stagger': 0,
       'lat_f_by': {'up': 0.5}, 'gen': 'witness'}),
@@ -1195,6 +1549,8 @@ def _nontrivial(case) -> bool:
                                                  for a in case['attempts']) or bool(case.get('pre'))
     if case['kind'] == 'ul':
         return any(a['off'] > 0 or any(o != 'chunk' and o != 'close' for o in a['ops']) for a in case['attempts'])
+    if case['kind'] == 'hs':
+        return case['value'] >= 256 or case['k'] != (4 if case['what'] == 'ticket' else 8) or len(case['cuts']) > 1
     return True
 
 
@@ -1226,9 +1582,27 @@ class C04(Property):
             'uploader (2/3) or the downloader (1/3) learns of the reset first, the other end 0..400 s later, so '
             'PeerUploadFailed / the re-queue request arrive before or after), then fault-free; control-plane state '
             'sampled every virtual second around the faults; + 8 / 80 cases with 2-3 uploaders at once (equal / '
-            'different sizes, requests 0..2 s apart, one file connection slower). All from VERIF_SEED. '
+            'different sizes, requests 0..2 s apart, one file connection slower) + 16 / 160 "pfault" cases: the peer '
+            'connection(s) that exist when the file connection breaks are broken too — the next control write of the '
+            'uploader / the downloader / both on them fails (at once or 0.5 / 5 s later, the first 0..2 writes still get through; the writer is told, nothing '
+            'a write had accepted is lost; new connections work), half of them with the downloader learning first and the '
+            'uploader\'s next write failing, a quarter with the downloader\'s second / third write failing (its reply to '
+            'the next offer), an eighth with all peer connections closed and the downloader unreachable for 5 / 30 / 100 s '
+            '(the uploader learns first: PeerUploadFailed takes the whole connection attempt, ~60 s, then fails; the '
+            'downloader\'s request arrives meanwhile). ul cases: when a fault '
+            'makes the uploader send PeerUploadFailed the send is suspended (60 % of the attempts with a fault): 15 '
+            'virtual seconds pass and / or the downloader asks again meanwhile, then it gets out / no connection to the '
+            'peer (PeerConnectionError) / the connection dies under the write (ConnectionWriteError); 12 % of the '
+            'offsets are >= 2^32-1 (up to 2^40+3: small file, nothing is due). hs cases (150 / 1500): ticket values '
+            '{0,1,255,256,65535,65536,2^24+1,2^31-1,2^31,2^32-2,2^32-1} / offset values {..., 2^32-1, 2^32, 2^32+1, '
+            '2^32+1148576, 2^33+5, 2^40, 2^48+2^32+9, 2^56-1, 2^63-1, 2^63, 2^64-1} + random, 0..8192 file bytes '
+            'following, delivered whole / byte-wise / split anywhere / fewer bytes than the value has. big cases '
+            '(24 / 300, monitor only): shared file of m*2^32 + d + missing bytes (m in 1..3, d in {0,1,5,300,1148576,2^31,'
+            '-1,-300,-8192}, missing in {1,128,8192,8193,20000,25*8192}), sparse, the downloader holds the first m*2^32+d '
+            'bytes, 0..1 cuts (for d < 0 the cut attempt crosses the 4 GiB line), limiter off / 4096. '
+            'All from VERIF_SEED. '
             'Non-trivial: >= 2 attempts, or a cut / dishonest sender / pre-existing file / offset > 0 / failure op / user '
-            'or restart op. Distinct = distinct canonical case')
+            'or restart op; hs: value >= 256 or split / short delivery. Distinct = distinct canonical case')
     assumptions = [
         'the local file is written only by this download (append mode) and the shared file does not change WHILE it is '
         'uploaded (between attempts it may); OS file semantics (append, getsize, seek/read, user-space buffering) are '
@@ -1245,10 +1619,21 @@ class C04(Property):
         'was sent; when the remote file changed between attempts nothing is claimed about the bytes before the offset '
         '(the protocol cannot compare them) nor about any outcome other than "not COMPLETE" when the file became '
         'shorter than the local file',
-        'pair level: faults are RESETS of the file connection (either end first, any delay). A downloader that gives '
+        'pair level: faults are RESETS of the file connection (either end first, any delay), optionally together with '
+        'the peer connections that exist at that moment: their next control write fails and the WRITER IS TOLD '
+        '(ConnectionWriteError), messages a write had accepted are delivered, new connections work. Silent loss of an '
+        'accepted control message is not repairable without acknowledgements and is not generated; nor is a queue '
+        'request that cannot be delivered over a NEW connection while the download is already QUEUED (it changes no '
+        'state, so no management cycle retries it: side observation, replay instrument `pwrites`). A downloader that gives '
         'up by its own read time-out closes the connection in an orderly way: if its re-queue request overtakes that '
         'close the uploader ignores it and then takes the close for the end of a complete upload — not repairable '
         'without a protocol change; silent stalls are not generated at pair level',
+        'hand-shake values: numbers are unbounded in the model; the theorems cover tickets < 2^32 and offsets < 2^64 '
+        '(what the senders can write), the real readers are exercised up to 2^32-1 / 2^64-1, the real seek + send with '
+        'offsets up to 2^40+3 on small files (model-compared) and with real sparse files of up to 3*2^32+2^31 bytes '
+        '(big cases, monitor only; only the regions around the resume point hold data). Offsets the OS cannot seek to '
+        '(>= 16 TiB on ext4: OSError -> FAILED "File read error"; >= 2^63: see fixes/C04-unseekable-offset.md) are not '
+        'generated: no honest downloader has such a file',
         'Lean control-plane model (FileXfer.Ctl): tickets are not modelled (a stale reply is accepted: more behaviours); '
         'C04_pair_progress_partial starts from quiescent states; that every fair fault-free continuation reaches '
         'quiescence is exercised (3600 virtual seconds per pair), not proved; the tie of the control-plane model is the '
@@ -1264,19 +1649,24 @@ class C04(Property):
                 'write_cache / read_cache (persisted state, counter, size, path; DOWNLOADING restored as INCOMPLETE / '
                 'COMPLETE), _initialize_upload from the '
                 'received offset on, _upload_file (seek, send loop, write error, EOF wait, read error in the EOF wait, '
-                'PeerUploadFailed, outcome by is_transfered), Transfer.is_transfered / progress callback; control plane '
+                'FAILED before PeerUploadFailed is sent, the send as a suspension point with its three outcomes — sent / '
+                'PeerConnectionError / ConnectionWriteError -> a still FAILED upload is re-queued —, a re-request during '
+                'the send, outcome by is_transfered), Transfer.is_transfered / progress callback; the raw hand-shake '
+                'values (FileXfer.Wire: what the senders write — uint32 ticket, uint64 offset —, how many bytes '
+                'receive_transfer_ticket / receive_transfer_offset take from the stream and how many of them they decode: '
+                'REGENERATED from the behaviour of the two readers, Generated/XferWire.lean); control plane '
                 '(FileXfer.Ctl): manage_transfers re-queue decision + remotely_queued, _on_peer_transfer_queue, '
-                '_on_peer_transfer_request / reply, _on_peer_upload_failed, hand-shake time-outs, reset_queue_vars. '
-                'Exercised, not modelled: the hand-shake readers '
-                'PeerConnection.receive_transfer_ticket / receive_transfer_offset and _on_peer_initialized (ticket and '
-                'offset delivered whole, byte-wise or split at any point, with time passing in between — the model '
-                'sees their concatenation), the (username, ticket) matching of file connections (multi-uploader pair '
+                '_on_peer_transfer_request / reply, _on_peer_upload_failed, hand-shake time-outs, reset_queue_vars, '
+                'control writes that fail (PeerUploadFailed undeliverable -> upload re-queued; PeerTransferQueue / '
+                'PeerTransferReply that cannot be written -> download back to QUEUED). '
+                'Exercised, not modelled: _on_peer_initialized, time passing between the pieces of a hand-shake value '
+                '(the model sees which prefix has arrived), the (username, ticket) matching of file connections (multi-uploader pair '
                 'cases), aiofiles / Python file buffering, '
                 'the transfer state classes, rate limiter timing (C20), naming (C09), full clients + server '
                 '(pair cases)')
 
     def regenerate(self):
-        return [rate_constants.generate(common.REPO, common.LEAN)]
+        return [rate_constants.generate(common.REPO, common.LEAN), xfer_wire.generate(common.REPO, common.LEAN)]
 
     def _cases(self, seed, tier, widen):
         rng = random.Random(f'C04-{seed}')
@@ -1306,6 +1696,9 @@ class C04(Property):
         cases += [_gen_dl_pause(rng) for _ in range((110 if quick else 2000) * widen)]
         cases += [_gen_dl_name(rng, i) for i in range(len(BAD_NAMES))]
         cases += [_gen_ul(rng) for _ in range((350 if quick else 6000) * widen)]
+        # (c2) the raw hand-shake values through the real readers; resumes beyond 4 GiB (sparse files)
+        cases += [_gen_hs(rng, i) for i in range((150 if quick else 1500) * widen)]
+        cases += [_gen_big(rng, i) for i in range((24 if quick else 300) * widen)]
         # (d) pairs
         try:
             from props import c04_pair
@@ -1333,7 +1726,15 @@ class C04(Property):
             res.evaluations += 1
             res.count('kind:' + c['kind'])
             res.count('gen:' + c.get('gen', '?'))
-            res.count(f"size:{c['flen']}")
+            if 'flen' in c:
+                res.count(f"size:{c['flen']}")
+            if c['kind'] == 'hs':
+                res.count(f"hs:{c['what']}:" + ('short' if c['k'] < (4 if c['what'] == 'ticket' else 8) else
+                                                 '>=2^32' if c['value'] >= 2 ** 32 else '>=2^16' if c['value'] >= 65536
+                                                 else 'small'))
+                res.count('hs:delivery=' + ('whole' if len(c['cuts']) == 1 else 'split'))
+            if c['kind'] == 'big':
+                res.count(f"big:resume-at-{'>=' if c['have'] >= 2 ** 32 else '<'}4GiB:cuts={len(c['cuts'])}")
             for a in c.get('attempts', []):
                 if c['kind'] == 'dl':
                     res.count('dl-attempt:end=' + ('cutinit' if a.get('cutinit') else a['end']))
@@ -1352,7 +1753,10 @@ class C04(Property):
                     res.count('ul-attempt:offset-bytes=' + ('whole' if not a.get('hs') else 'bytewise' if
                                                             a['hs']['cuts'] == [1] * 8 else 'split'))
                     res.count('ul-attempt:offset=' + ('0' if a['off'] == 0 else 'size' if a['off'] == c['flen'] else
+                                                      '>=2^32' if a['off'] >= 2 ** 32 else
                                                       'beyond' if a['off'] > c['flen'] else 'inside'))
+                    if a.get('ntf'):
+                        res.count('ul-attempt:PeerUploadFailed=' + '+'.join(a['ntf']))
                     for o in set(a['ops']):
                         res.count('ul-op:' + o)
             for o in obs:
